@@ -316,6 +316,51 @@ def run(ctx):
                      sample={"rule": "WIRE block constructor", "parameter": nm, "origin": show(t)[:50]} if nb % 4 == 1 else None)
         R.floor("block_constructor_arguments", nb, 10)
         # parent link: the previous block's hash (block_number - 1)
+    # a height / hash is finalised once: the block record, raw block and number<->hash rows of finalise_block are written only
+    # after the uniqueness guard (require_block_does_not_exist, directly or inside the validator) has passed.  set_block_hash
+    # carries the guard itself but is the *last* write, so without a guard before the first one a finalise that is going to be
+    # refused has already replaced the stored block: by-number and by-hash lookups stop inverting
+    from enginerules import err_propagated as _ep
+    GUARD_M = "require_block_does_not_exist"
+
+    def _reaches_guard(g, depth=0):
+        if g is None or not g.blocks:
+            return False
+        for b_ in [g] + F.descendants(g.id):
+            for c_ in b_.calls():
+                if b_.is_cleanup(c_.bb):
+                    continue
+                if (c_.method or "") == GUARD_M and (_ep(b_, c_) or c_.t["dest"]["l"] == 0):
+                    return True
+                if depth < 1 and c_.target_id and c_.target_id in F.fns and F.fns[c_.target_id].name.startswith("engine::") and (_ep(b_, c_) or c_.t["dest"]["l"] == 0):
+                    if _reaches_guard(F.fns[c_.target_id], depth + 1):
+                        return True
+        return False
+    fb = ER.engine_methods(F).get("finalise_block")
+    R.floor("finalise_block_body", 1 if fb is not None else 0, 1)
+    if fb is not None:
+        n_fw = 0
+        for w in fb.calls():
+            if fb.is_cleanup(w.bb) or (w.method or "") not in ("write_fn", "write_fn_unchecked"):
+                continue
+            ks = [F.fns.get(x) for x in ((w.func or {}).get("arg_cl") or [])]
+            ks = [F.inlined(k_) for k_ in ks if k_ is not None]
+            if not any((c_.method or "") in ("set_block", "set_raw_block", "set_block_hash") for k_ in ks for c_ in k_.calls()):
+                continue
+            n_fw += 1
+            pre = [c_ for c_ in fb.calls() if not fb.is_cleanup(c_.bb) and c_.bb != w.bb and fb.sdominates(c_.bb, w.bb) and _ep(fb, c_) and
+                   ((c_.method or "") == GUARD_M or (c_.target_id in F.fns and _reaches_guard(F.fns[c_.target_id])))]
+            inside = False
+            for k_ in ks:
+                firsts = [c_ for c_ in k_.calls() if not k_.is_cleanup(c_.bb) and (c_.method or "") in ("set_block", "set_raw_block")]
+                gs_ = [c_ for c_ in k_.calls() if not k_.is_cleanup(c_.bb) and (c_.method or "") == GUARD_M and _ep(k_, c_)]
+                if firsts and gs_ and all(any(k_.sdominates(g_.bb, f_.bb) and g_.bb != f_.bb for g_ in gs_) for f_ in firsts):
+                    inside = True
+            R.ob(bool(pre) or inside, "DOM-before", w.where(), "DOM-before|finalise_block|block-unique",
+                 "finalise_block writes the block record before anything has checked that this height / hash is not finalised already "
+                 "(the guard inside set_block_hash comes after set_block / set_raw_block): a refused finalise leaves a replaced block behind",
+                 sample={"rule": "DOM-before", "a": "require_block_does_not_exist (via %s)" % ((pre[0].method or "?") if pre else "closure"), "b": "set_block / set_raw_block / set_block_hash"})
+        R.floor("finalise_block_chain_writes", n_fw, 1)
     n_scan = T.clause_index_scan_bounds(R, F)
     R.floor("index_range_scans", n_scan, 3)
     # the hash an inscription transaction is stored under is derived from (sender, *account nonce*, target, data): unique per
